@@ -153,7 +153,7 @@ def conv_value(x, u, v):
 
 
 def conv_to(x, u, v):
-    """Quantity(x,u).to(v) on a fresh object -> ('val', value, units expression, same object?) | ('err', text, unchanged?)"""
+    """Quantity(x,u).to(v) on a fresh object -> ('val', value, units expression, converted in place?) | ('err', text, unchanged?)"""
     from scinumtools.units import Quantity
     try:
         q = Quantity(x if not isinstance(x, list) else list(x), u)
@@ -162,6 +162,8 @@ def conv_to(x, u, v):
     before = snapshot(q)
     try:
         r = q.to(v)
-        return ("val", np.array(r.magnitude.value, dtype=float).tolist(), r.baseunits.expression, r is q)
+        # in place: the object the caller holds now carries the converted value and units (identity of the
+        # returned object is not required, equality with it is)
+        return ("val", np.array(r.magnitude.value, dtype=float).tolist(), r.baseunits.expression, snapshot(r) == snapshot(q))
     except Exception as e:
         return ("err", type(e).__name__ + ": " + str(e.args[:1])[:100], snapshot(q) == before)
